@@ -687,6 +687,19 @@ def transport_run(res, scenario, lost_window, attack, non=False):
         if lost_window:
             sv.recipient_replay_window = o.ReplayWindow(32, lambda: None)      # uninitialised: state lost
             sv.echo_recovery = b"echo-of-this-process"
+        used = []       # (key, nonce) of every encryption on either side
+
+        def logged(ctx):
+            real = ctx.alg_aead
+
+            class Logged(type(real)):
+                def encrypt(self_, plaintext, aad, key, iv):
+                    used.append((bytes(key), bytes(iv)))
+                    return real.encrypt(plaintext, aad, key, iv)
+            Logged.__name__ = type(real).__name__
+            ctx.alg_aead = Logged()
+        logged(sv)
+        logged(cl)
         cm = CredentialsMap()
         cm[":sv"] = sv
         w.add_context("srv", *T_SRV, site=OscoreSiteWrapper(site, cm))
@@ -779,6 +792,11 @@ def transport_run(res, scenario, lost_window, attack, non=False):
         for msg, e in w.loop_exceptions():
             res.violate(Violation("loop-exception", "none", core.exc_desc(e) if e else msg, core.site_of(e) if e else "loop", case,
                                   key="transport:" + (type(e).__name__ if e else msg[:40])))
+        # no (key, nonce) pair encrypts twice: each notification after the first has a nonce of its own
+        if len(set(used)) != len(used):
+            dup = [u for u in used if used.count(u) > 1][0]
+            res.violate(Violation("nonce-reused", "every (key, nonce) pair encrypts once", {"nonce": dup[1].hex(), "times": used.count(dup)},
+                                  "oscore_sitewrapper.py:render_to_pipe", case, key="transport-nonce"))
         # nothing of the inner messages is on the wire in the clear
         for d in w.sent:
             if b"n=1" in d.data or b"n=2" in d.data or b"R|" in d.data or b"|n" in d.data:
